@@ -26,7 +26,7 @@ ASSUMPTIONS = c03.ASSUMPTIONS + ["the model's notion of 'breaks a declared rule'
 PROFILE = dict(c03.PROFILE)
 STYLES = [dict(key="long", val="word", group="never"), dict(key="short", val="glue", group="max"), dict(key="abbr", val="eq"), dict(), dict()]
 MUTATIONS = ["drop-mandatory", "cardinality", "unknown-short", "unknown-long", "ambiguous-abbr", "bad-value", "check-fail",
-             "missing-value", "excluded", "missing-required", "all_of", "two-of", "one_of-none", "differ", "disjoint", "level-limit"]
+             "missing-value", "excluded", "missing-required", "all_of", "two-of", "one_of-none", "differ", "disjoint", "level-limit", "tuple-short"]
 
 
 def cases(tier):
@@ -183,6 +183,17 @@ def mutate(rng, cfg, uses, kind):
             m[i].elems[rng.randrange(len(m[i].elems))] = t
             return m, None
         return None
+    if kind == "tuple-short":
+        # a tuple destination (three elements) that gets one or two values only: used, but not all expected values
+        if any(x.short == "T" or (x.long or "").startswith("zz-tr") for x in cfg.args):
+            return None
+        tp = argh.Arg("tu9", "T", "zz-triple")
+        tp.multi = rng.random() < 0.5
+        cfg.args.append(tp)
+        v = [str(rng.randint(0, 99)), rng.choice(["two", "x", "Ab"])]
+        k = lambda: rng.choice(["-T", "--zz-triple"])
+        words = rng.choice([[k(), v[0]], [k(), v[0] + "," + v[1]], [k(), v[0], k(), v[1]]] + ([[k(), v[0], v[1]]] if tp.multi else []))
+        return m, (len(m), words)
     if kind == "level-limit":
         # a level counter with an upper limit, incremented (value-less uses) exactly up to the limit: the last increment
         # produces a value that fails the check
